@@ -5,6 +5,8 @@
 package refgraph
 
 import (
+	"crypto/sha256"
+	"encoding/hex"
 	"fmt"
 	"math/rand"
 	"net/url"
@@ -397,9 +399,9 @@ func RefsUnder(doc string, path []string, kind string, v wire.V, out *[]Occ) {
 // Graph: canonical targets reachable from the root's element positions, with edges to the targets of the
 // references found under each.
 type Graph struct {
-	Edges  map[Key][]Key
-	KindOf map[Key]string
-	Roots  []Occ // references occurring directly in the root document
+	Edges   map[Key][]Key
+	KindOf  map[Key]string
+	Roots   []Occ        // references occurring directly in the root document
 	Missing map[Key]bool // targets that do not resolve to an object
 }
 
@@ -471,15 +473,15 @@ func (g *Graph) Cyclic() bool {
 // ---- generator ----
 
 type Options struct {
-	Docs        int     // number of documents (1..6)
-	Defs        int     // definitions per document
-	Elements    bool    // parameters / responses / path items with references
-	Cycles      bool    // allow back edges
-	NastyNames  bool
-	HTTP        bool    // allow an http-hosted document
-	Spellings   bool    // vary the spelling of references (./, absolute, …)
-	NestedPtrs  bool    // references to nested pointer targets
-	RefP        float64 // probability that a sub-schema position holds a $ref
+	Docs       int  // number of documents (1..6)
+	Defs       int  // definitions per document
+	Elements   bool // parameters / responses / path items with references
+	Cycles     bool // allow back edges
+	NastyNames bool
+	HTTP       bool    // allow an http-hosted document
+	Spellings  bool    // vary the spelling of references (./, absolute, …)
+	NestedPtrs bool    // references to nested pointer targets
+	RefP       float64 // probability that a sub-schema position holds a $ref
 }
 
 type node struct {
@@ -784,4 +786,86 @@ func maxi(a, b int) int {
 		return a
 	}
 	return b
+}
+
+// ---- abstraction into the reference graphs of the Lean model (SpecModel/Expand/Core.lean) ----
+
+// ATree: an element abstracted to a reference leaf (canonical target key) or a labelled node whose children are
+// its sub-element positions in the fixed order of Children. The label stands for everything of the element that
+// is not a sub-element (kind + canonical head, hashed).
+type ATree struct {
+	IsRef bool
+	Ref   string
+	Label string
+	Kids  []*ATree
+}
+
+func (t *ATree) Wire() interface{} {
+	if t.IsRef {
+		return map[string]interface{}{"r": t.Ref}
+	}
+	kids := make([]interface{}, len(t.Kids))
+	for i, k := range t.Kids {
+		kids[i] = k.Wire()
+	}
+	return map[string]interface{}{"l": t.Label, "c": kids}
+}
+
+func (t *ATree) Refs(out *[]string) {
+	if t.IsRef {
+		*out = append(*out, t.Ref)
+		return
+	}
+	for _, k := range t.Kids {
+		k.Refs(out)
+	}
+}
+
+func labelOf(kind string, head wire.V) string {
+	h := sha256.Sum256([]byte(kind + head.Canon()))
+	return kind + ":" + hex.EncodeToString(h[:8])
+}
+
+// Abstract: the element v of the given kind, located in document doc.
+func (w *World) Abstract(doc, kind string, v wire.V) *ATree {
+	if kind != "operation" && kind != "swagger" {
+		if ref, ok := RefOf(v); ok {
+			k, err := ResolveRef(doc, ref)
+			if err != nil {
+				return &ATree{IsRef: true, Ref: "bad:" + ref}
+			}
+			return &ATree{IsRef: true, Ref: k.String()}
+		}
+	}
+	head := v
+	for _, ck := range childKeys(kind) {
+		if x, ok := head.Get(ck); ok {
+			head = head.Set(ck, stripElements(kind, ck, x))
+		}
+	}
+	t := &ATree{Label: labelOf(kind, head)}
+	for _, c := range Children(kind, v) {
+		t.Kids = append(t.Kids, w.Abstract(doc, c.Kind, c.Val))
+	}
+	return t
+}
+
+// AbstractWorld: for every key (with the kind it is referenced as) the abstraction of its target, nil when the
+// target is missing or not an object. The result is the wire form `[[key, tree|null],…]`, sorted by key.
+func (w *World) AbstractWorld(kinds map[Key]string) []interface{} {
+	keys := make([]Key, 0, len(kinds))
+	for k := range kinds {
+		keys = append(keys, k)
+	}
+	sort.Slice(keys, func(i, j int) bool { return keys[i].String() < keys[j].String() })
+	out := make([]interface{}, 0, len(keys))
+	for _, k := range keys {
+		t, ok := w.Lookup(k)
+		if !ok || t.Kind != wire.Obj {
+			out = append(out, []interface{}{k.String(), nil})
+			continue
+		}
+		out = append(out, []interface{}{k.String(), w.Abstract(k.Doc, kinds[k], t).Wire()})
+	}
+	return out
 }
